@@ -11,11 +11,21 @@ PROP = dict(
          "-129, 128, +-2^15, +-2^31 (var); Maybe[T] for eleven instantiations incl. a composite record; cells (random DAGs with references; on every run DAGs of exactly 255/256/257 distinct cells — "
          "65535/65536/65537 in the thorough tier — with 4-ref and 1023-bit cells, chains of depth 1023 and 1024), account "
          "ids, message-body envelopes (hand-made object documents: key case, duplicates, nulls, wrong types, op-code range). "
+         "On EVERY run and seed (deterministic part): the four envelope types abi.InMsgBody / ExtOutMsgBody / JettonPayload / "
+         "NFTPayload over every SumType (empty; cell with no / 0 / max / random op code; every registered name), for every "
+         "registered name ~28 documents with a malformed, missing or wrongly typed Value and unregistered names, mutations of "
+         "named bodies; destination reuse (decode A then B into ONE variable, result must be B) for consecutive values of every "
+         "family, all Maybe instantiations some->none / none->some / some->some, and pairs of envelope documents; cell "
+         "documents whose bag has 0 / 2 / 3 roots (and one-root controls), also inside envelopes. "
          "Every sixth value (every third in the thorough tier) is followed by ~130 mutated "
          "documents (quotes dropped/added, signs, spaces, leading zeros, exponents, underscores, overlong and boundary "
          "numbers, wrong lengths, non-hex, truncations, byte replacement, other JSON types, non-ASCII bytes). "
          "non-trivial = distinct (family, value) pair",
     trusted_base=[
+        "the reference for the envelope oracle (harness/cmd/vh/c20_envelopes.go envReference: {SumType, OpCode, Value raw}; "
+        "empty name = no value, the cell name = a one-root cell document read through boc.DeserializeBoc, any other name must "
+        "be registered and Value must decode into the registered record; every failure is an error) — go.json.mal compares the "
+        "FULL outcome of json.Unmarshal and of the method with it (error vs value, SumType, OpCode, decoded Value)",
         "hand model lean/TongoModel/Json.lean + Prim/Dec.lean tied to the Go methods by the line correspondence on every run "
         "(json.print: exact output text of json.Marshal; json.parse: outcome of the UnmarshalJSON METHOD on every generated "
         "and mutated document; json.valid: the transcribed encoding/json scanner against json.Valid)",
@@ -56,6 +66,10 @@ PROP = dict(
         "Maybe of a composite record is modelled for tlb.Maybe[tlb.Anycast] (encoding/json's struct codec for two uint32 "
         "fields); other composite records are not claimed",
         "tlb.HashmapE has an encoder only and is outside the statement",
+        "an op code on an EMPTY envelope body is accepted by the parsers and not printed ({}): such a value cannot come from "
+        "a TL-B decode and is excluded from the accepted-document round trip",
+        "the correspondence op json.parse envelope still reports a named body by name only (the model has no registry); the "
+        "outcome for named bodies is checked by the direct oracle against the Go-side reference, not against the Lean model",
     ],
     partial=[
         "decimal_signed_bits1_quirk: 'every out-of-range literal is an error' is FALSE at bit size 1 (tlb.Int1): "
